@@ -5,6 +5,7 @@ mod decoder;
 mod queue;
 mod queue_conc;
 mod queue_timed;
+mod driver;
 
 fn main() {
     let args: Vec<String> = std::env::args().collect();
@@ -22,6 +23,8 @@ fn main() {
         "queue" => queue::run(&a),
         "queue_conc" => queue_conc::run(&a),
         "queue_timed" => queue_timed::run(&a),
+        "driver" => driver::run(&a),
+        "driver_conc" => driver::run_conc(&a),
         other => {
             eprintln!("unknown core {}", other);
             std::process::exit(2);
